@@ -18,6 +18,8 @@ pub const OPLOG: usize = 3;
 pub const STORE_NAMES: [&str; 4] = ["tree", "data", "bitfield", "oplog"];
 
 pub type Files = [Vec<u8>; 4];
+/// per-file size limit of the simulated disk
+pub const QUOTA: u64 = 1 << 28;
 
 #[derive(Clone, Debug, Serialize, Deserialize, PartialEq)]
 pub enum JKind {
@@ -124,6 +126,7 @@ pub struct DiskState {
     pub counts: OpCounts,
     /// global sequence shared with the executor (C15 stamps)
     pub yields: u64,
+    pub quota_hits: u64,
 }
 
 #[derive(Clone, Debug)]
@@ -303,6 +306,11 @@ impl SimFile {
 impl RandomAccess for SimFile {
     async fn write(&mut self, offset: u64, data: &[u8]) -> Result<(), RandomAccessError> {
         self.enter("write").await?;
+        if offset.saturating_add(data.len() as u64) > QUOTA {
+            // simulated full disk: a real file would become sparse, a Vec would exhaust memory
+            self.disk.lock().quota_hits += 1;
+            return Err(io_err("write beyond the simulated disk quota (ENOSPC)"));
+        }
         let mut st = self.disk.lock();
         st.counts.write += 1;
         let op = JOp {
@@ -357,6 +365,10 @@ impl RandomAccess for SimFile {
 
     async fn truncate(&mut self, length: u64) -> Result<(), RandomAccessError> {
         self.enter("truncate").await?;
+        if length > QUOTA {
+            self.disk.lock().quota_hits += 1;
+            return Err(io_err("truncate beyond the simulated disk quota (ENOSPC)"));
+        }
         let mut st = self.disk.lock();
         st.counts.truncate += 1;
         let op = JOp {
